@@ -544,6 +544,34 @@ def r5_position_map(R) -> None:
     R.check(ok, VR, 'new-span', 'the result carries the new span', "`reindexed.__dict__['span'] = span` not found", where=f.fi.where)
 
 
+def r7_pandas_twin_defaults(R) -> None:
+    """With its default arguments the pandas-based reindex() is the base reindex(): the pass that re-fills each variable through
+    Series.reindex() (NaN for new periods, whatever the dtype) must not run for a variable that has neither a fill method
+    nor a fill value of its own - the base result, with the dtype default, stands."""
+    f = Fn(R, PR)
+    stores = [n for n in f.cfg.nodes if n.kind == 'stmt' and isinstance(n.ast, ast.Assign) and isinstance(n.ast.targets[0], ast.Subscript)
+              and any(method_call(x, 'reindex') and not is_super_call(x, 'reindex') for x in ast.walk(n.ast.value))]
+    if not stores:
+        return
+    for n in stores:
+        rc = [x for x in ast.walk(n.ast.value) if method_call(x, 'reindex') and not is_super_call(x, 'reindex')][0]
+        fv, fm = kwarg(rc, 'fill_value'), kwarg(rc, 'method')
+        if fv is None or fm is None:
+            raise Unknown(f'{PR}: `{text(rc)[:60]}`: fill value / method of the Series.reindex() call not found')
+        fv_t, fm_t = f.etext(n.id, fv), f.etext(n.id, fm)
+        # the store is skipped when both are None ...
+        from fsa.match import entails
+        facts = f.xguard_atoms(n.id)
+        both_none = ast.parse(f'{fm_t} is None and {fv_t} is None', mode='eval').body
+        skipped = entails(facts, both_none, False)
+        # ... or the fill handed to pandas is already dtype-aware
+        dtype_aware = any(is_call(x, 'np.issubdtype', 'numpy.issubdtype') for x in ast.walk(f.expand(n.id, fv, depth=4)))
+        R.check(skipped or dtype_aware, PR, 'pandas-default-fill:' + text(n.ast.targets[0])[:30],
+                'on default arguments the pandas reindex() keeps the base result (dtype default for new periods)',
+                f'`{text(n.ast)[:60]}...` runs for every variable, also when neither a fill method nor a fill value applies to it: new periods then hold what Series.reindex() '
+                f'puts there (NaN) cast to the variable\'s dtype - an integer model gets -9223372036854775808 where the base reindex() gives 0 (bool: True, str: \'nan\')', where=f.where(n))
+
+
 def r6_no_shared_state(R) -> None:
     """reindex() works from its arguments and the object alone: a memoised (per-class) table it consults is only read,
     never updated with one call's keywords (which every later call on the class would then see)."""
@@ -565,3 +593,4 @@ def run(R) -> None:
     R.rule('C12.R4', lambda: r4_strict(R))
     R.rule('C12.R5', lambda: r5_position_map(R))
     R.rule('C12.R6', lambda: r6_no_shared_state(R))
+    R.rule('C12.R7', lambda: r7_pandas_twin_defaults(R))
